@@ -22,7 +22,10 @@ PlantSchema(p) ==
 
 \* ---- carriers: every keyword of the schema model that can hold a schema ---------------------
 Carriers == {"prop", "patprop", "defs", "items", "tuple", "addprops", "additems_tuple",
-             "additems_single", "additems_bare", "allOf", "anyOf", "oneOf", "not"}
+             "additems_single", "additems_bare", "allOf", "anyOf", "oneOf", "not",
+             "allOf_scalar", "prop_scalar", "refsib"}
+\* carriers that add a $ref of their own (the planted schema sits beside a $ref)
+RefCarriers == {"refsib"}
 Wrap(k, s) ==
   CASE k = "prop"     -> Obj([properties |-> Mk(<<>>, ("N_1" :> s) @@ ("N_11" :> Leaf("number")))])
     \* (map-valued carriers get a sibling of a different shape: an index entry must carry ITS schema, not a neighbour's)
@@ -38,6 +41,11 @@ Wrap(k, s) ==
     [] k = "anyOf"    -> Mk(<<>>, [anyOf |-> ListOf(<<Leaf("string"), s>>)])
     [] k = "oneOf"    -> Mk(<<>>, [oneOf |-> ListOf(<<s>>)])
     [] k = "not"      -> Mk(<<>>, [not |-> s])
+    \* a schema typed as a scalar that nevertheless carries sub-schemas
+    [] k = "allOf_scalar" -> Mk([type |-> "string"], [allOf |-> ListOf(<<s, Leaf("string")>>)])
+    [] k = "prop_scalar"  -> Mk([type |-> "integer"], [properties |-> Mk(<<>>, ("N_1" :> s))])
+    \* a $ref with schema-bearing siblings: the siblings are schemas of the document all the same
+    [] k = "refsib"   -> Mk(("$ref" :> <<"root", "definitions", "N_9">>), [properties |-> Mk(<<>>, ("N_1" :> s)), allOf |-> ListOf(<<Leaf("boolean")>>)])
 
 \* ---- documents ------------------------------------------------------------------------------
 Skeleton == Mk([swagger |-> "2.0"], [info |-> Mk([title |-> "t", version |-> "1"], <<>>), paths |-> Empty])
@@ -101,8 +109,10 @@ SimpleOwner(base, depth, p) ==
 QueryParam == Mk(("in" :> "query") @@ [name |-> "q", type |-> "string"], <<>>)
 Header     == Leaf("string")
 
-SimpleSections == { <<"-", w>> : w \in {"sharedParam", "pathParam", "sharedRespHeader"} } \cup
-                  { <<m, w>> : m \in Methods, w \in {"opParam", "codeHeader", "defaultHeader"} }
+SimpleSections == { <<"-", w>> : w \in {"sharedParam", "pathParam", "sharedRespHeader", "sharedBodyParam", "pathBodyParam"} } \cup
+                  { <<m, w>> : m \in Methods, w \in {"opParam", "codeHeader", "defaultHeader", "opBodyParam"} }
+\* a body parameter that ALSO carries simple-schema keywords (outside Swagger 2.0, loadable: the analyzer walks items of every parameter)
+BodyWithItems(par) == [par EXCEPT !.at = ("in" :> "body") @@ @, !.ch = [schema |-> Leaf("string")] @@ @]
 PlaceSimple(sec, depth, p) ==
   LET par == SimpleOwner(QueryParam, depth, p)
       hdr == SimpleOwner(Header, depth, p)
@@ -111,6 +121,10 @@ PlaceSimple(sec, depth, p) ==
          [Skeleton EXCEPT !.ch = [definitions |-> Mk(<<>>, [N_9 |-> Target]), parameters |-> Mk(<<>>, [N_6 |-> par])] @@ @]
     [] sec[2] = "pathParam" ->
          DocWithPaths(PathItemWith([parameters |-> ListOf(<<par>>), get |-> Op([responses |-> OkResponses])]), <<>>)
+    [] sec[2] = "sharedBodyParam" ->
+         [Skeleton EXCEPT !.ch = [definitions |-> Mk(<<>>, [N_9 |-> Target]), parameters |-> Mk(<<>>, [N_6 |-> BodyWithItems(par)])] @@ @]
+    [] sec[2] = "pathBodyParam" ->
+         DocWithPaths(PathItemWith([parameters |-> ListOf(<<BodyWithItems(par)>>), get |-> Op([responses |-> OkResponses])]), <<>>)
     [] sec[2] = "sharedRespHeader" ->
          [Skeleton EXCEPT !.ch = [definitions |-> Mk(<<>>, [N_9 |-> Target]),
                                   responses |-> Mk(<<>>, [N_5 |-> Resp([headers |-> MapOf("X-Rate", hdr)])])] @@ @]
@@ -118,6 +132,8 @@ PlaceSimple(sec, depth, p) ==
          LET m == sec[1]  w == sec[2] IN
          CASE w = "opParam" ->
                 DocWithPaths(PathItemWith((m :> Op([parameters |-> ListOf(<<par>>), responses |-> OkResponses]))), <<>>)
+           [] w = "opBodyParam" ->
+                DocWithPaths(PathItemWith((m :> Op([parameters |-> ListOf(<<BodyWithItems(par)>>), responses |-> OkResponses]))), <<>>)
            [] w = "codeHeader" ->
                 DocWithPaths(PathItemWith((m :> Op([responses |-> Mk(<<>>, ("200" :> Resp([headers |-> MapOf("X-Rate", hdr)])))]))), <<>>)
            [] w = "defaultHeader" ->
